@@ -28,7 +28,7 @@ BUDGET_S = {"quick": 200, "thorough": 1500}
 
 
 def cases(tier, seed):
-    for i in range(1500 if tier == "quick" else 60000):
+    for i in range(4000 if tier == "quick" else 120000):
         yield {"fam": "table", "i": i}
 
 
